@@ -702,11 +702,17 @@ func init() {
 				c.R.Add(h.Finding{Stage: st3.Name, Kind: "crash", What: via + ": " + crash, Input: key})
 				continue
 			}
-			if want := "partial:" + strconv.Itoa(len(input)); string(out) != want {
+			want, wantErr := "partial:"+strconv.Itoa(len(input)), errBoom
+			if via == "m.ResponseWriter" && len(chunks) == 0 {
+				// a response without any Write never selects a minifier (lazy selection on the first Write, see docs/C12.md):
+				// nothing is written and Close reports nothing — the stub's output for empty input is not owed
+				want, wantErr = "", nil
+			}
+			if string(out) != want {
 				c.R.Add(h.Finding{Stage: st3.Name, Kind: "fail", What: via + ": output incomplete when Close returned", Input: key, Impl: h.Q(out), Model: want})
 			}
-			if cerr != errBoom {
-				c.R.Add(h.Finding{Stage: st3.Name, Kind: "fail", What: via + ": Close did not return the minifier's error", Input: key, Impl: errText(cerr), Model: "boom"})
+			if cerr != wantErr {
+				c.R.Add(h.Finding{Stage: st3.Name, Kind: "fail", What: via + ": Close did not return the minifier's error", Input: key, Impl: errText(cerr), Model: errText(wantErr)})
 			}
 		}
 		// middleware media type selection with stub minifiers
